@@ -47,15 +47,17 @@ def clause_a(ctx, P):
     # --- cached records
     _check_cache_times(ctx, P)
     # --- resolver deadline
-    fn = P.one("Zeroconf::add_hostname_resolver")
+    fn = resolver_registration_fn(P)
     tr = tracer(P, fn)
     ins = [(b, t) for b, t in fn.calls() if name_matches(cname(t), "HashMap::insert") and recv_mentions(P, fn, b, t, "hostname_resolvers", "Zeroconf")]
     adds = calls_to(fn, "Zeroconf::add_timer")
     ok = False
     if ins and adds:
         ie = tr.operand(ins[0][1]["args"][2], endpos(fn, ins[0][0]))
-        ae = tr.operand(adds[0][1]["args"][1], endpos(fn, adds[0][0]))
         stored = [x for x in walk(ie) if x[0] == "call" and name_matches(strip_generics(x[1]), "Option::map")]
+        # the add_timer call that is fed from the stored deadline (the function may arm other timers too)
+        adds = [(b, t) for (b, t) in adds if any(x in stored for x in walk(tr.operand(t["args"][1], endpos(fn, b))))] or adds
+        ae = tr.operand(adds[0][1]["args"][1], endpos(fn, adds[0][0]))
         ok = bool(stored) and any(x in stored for x in walk(ae))
         if ok:
             e_some = guard_edges(P, fn, lambda atom, outcome, bb: atom[0] == "variant" and outcome == frozenset(["Some"]) and any(x in stored for x in walk(atom[1])))
